@@ -90,6 +90,16 @@ def c_points(ctx, case):
               "distances / labels returned by an earlier call changed when the machine was called again", "result-overwritten")
     # Dask
     dX = sut.dask_rows(X, chunks)
+    lazy_d, lazy_l = m.transform(dX), m.predict(dX)
+    # the lazy results are used as they are: their declared shapes are right and a single row's column / label can be
+    # taken without computing the rest
+    ctx.check(tuple(lazy_d.shape) == (k, n) and tuple(lazy_l.shape) == (n,), "lazy transform / predict declare shapes %s / %s, expected %s / %s"
+              % (lazy_d.shape, lazy_l.shape, (k, n), (n,)), "lazy-shape")
+    for t in sorted({0, n // 2, n - 1}):
+        ctx.close(np.asarray(lazy_d[:, t].compute()), want[:, t], "column %d of the lazy distances" % t, rtol=1e-12, atol=0)
+        lt = int(lazy_l[t].compute())
+        ctx.check(want[lt, t] <= want[:, t].min() * (1 + 1e-12), "label %d taken from the lazy predict result is not a nearest centroid" % t,
+                  "not-nearest")
     dgot = np.asarray(m.transform(dX).compute())
     ctx.check(dgot.shape == (k, n), "dask transform shape %s" % (dgot.shape,), "shape")
     ctx.close(dgot, want, "dask squared distances", rtol=1e-12, atol=0)
